@@ -261,7 +261,12 @@ RAW = ['[act]\n% atc\n' + '\x0c\n' * 3000, '[act]\n% atc a\n' + ' \t \n' * 5000,
        '[assert]\n`a\nmulti-line\ndescription`\n# only a comment follows',
        '[assert]\n\xa0', '[assert]\n\x0c', '[setup]\ndef string A = 1\n\x0b', '[act]\n% atc\n[cleanup]\n \x1c', '[act]\nprog \xa0', '[act]\n\xa0\n', '[setup]\n\u2028', '[setup]\n\x85\n[act]\n',
        '', '\n\n\n', '\x00\x01\x02', '﻿[act]\n% atc\n', '[act]\n' + 'x' * 100000, '\r\n[act]\r\n% atc\r\n', '[act]\n% atc\n[assert]\nexit-code == 0' + '\n' * 5000,
-       '[setup]\n' + 'def string S%d = x\n' * 3, '#' * 1000, '[act]\n\\', '[setup]\nfile f = <<\n', '[setup]\nfile f = <<EOF', "[setup]\ndef string X = 'a\nb'\n"]
+       '[setup]\n' + 'def string S%d = x\n' * 3, '#' * 1000] + [
+       # a header-like line preceded by white space that is not space / tab (the header syntax allows only those two before `[`)
+       tmpl % (ws + hd) for ws in ('\x0c', '\x0b', '\xa0', '\u2003', '\x1c', '\u3000', ' \x0c ', '\t\xa0')
+       for hd in ('[assert]', '[no-such-phase]', '[act]')
+       for tmpl in ('[setup]\n%s\n', '[act]\n%% atc\n[assert]\n%s\nexit-code == 0\n', '[act]\n%s\n', '%s\n', '[cleanup]\n%s')] + [
+        '[act]\n\\', '[setup]\nfile f = <<\n', '[setup]\nfile f = <<EOF', "[setup]\ndef string X = 'a\nb'\n"]
 
 
 def _world(w, seam):
